@@ -382,10 +382,23 @@ def _subparam_order(prog: Program, run: Run) -> None:
     R = "C15.R3"
     f = prog.func("ComplexComparam.from_et")
     C = "ComplexComparam.from_et"
+    TAGS = ("COMPARAM", "COMPLEX-COMPARAM")
+
+    def tag_values(e: ast.AST) -> List[str]:
+        """the tag(s) an iterfind argument can stand for: a literal, or a loop variable that
+        ranges over a literal tuple / list of tags"""
+        if isinstance(e, ast.Constant):
+            return [str(e.value).split("/")[-1]]
+        if isinstance(e, ast.Name):
+            for l in walk_no_nested(f.node):
+                if isinstance(l, ast.For) and isinstance(l.target, ast.Name) and \
+                        l.target.id == e.id and isinstance(l.iter, (ast.Tuple, ast.List)) and all(
+                            isinstance(c, ast.Constant) for c in l.iter.elts):
+                    return [str(c.value).split("/")[-1] for c in l.iter.elts]
+        return []
     per_tag = [x for x in walk_no_nested(f.node) if isinstance(x, ast.Call) and isinstance(
         x.func, ast.Attribute) and x.func.attr in ("iterfind", "findall", "iter") and x.args and
-        isinstance(x.args[0], ast.Constant) and str(x.args[0].value).split("/")[-1] in (
-            "COMPARAM", "COMPLEX-COMPARAM")]
+        any(t in TAGS for t in tag_values(x.args[0]))]
     tag_tests = [x for x in walk_no_nested(f.node) if isinstance(x, ast.Compare) and isinstance(
         x.left, ast.Attribute) and x.left.attr == "tag" and all(
             k in ast.unparse(x) for k in ("'COMPARAM'", "'COMPLEX-COMPARAM'"))]
@@ -444,6 +457,22 @@ def _accessors(prog: Program, run: Run) -> None:
             ok = False
             run.violation(R, C, "unexpected-subvalue", "reads a sub-value of a simple parameter",
                           m.loc)
+        # the value is read through get_value() / get_subvalue(): those apply the default of the
+        # specification when the value was omitted; the raw `.value` does not
+        cp_vars = {x.targets[0].id for x in walk_no_nested(m.node) if isinstance(x, ast.Assign) and
+                   len(x.targets) == 1 and isinstance(x.targets[0], ast.Name) and any(
+                       y is x.value or any(z is y for z in ast.walk(x.value)) for y in calls)}
+        raw = [x for x in walk_no_nested(m.node) if isinstance(x, ast.Attribute) and x.attr in (
+            "value", "_value") and isinstance(x.value, ast.Name) and x.value.id in cp_vars]
+        reads = [x for x in walk_no_nested(m.node) if isinstance(x, ast.Call) and call_name(x) in (
+            "get_value", "get_subvalue")]
+        if raw or not reads:
+            ok = False
+            run.violation(R, C, "bypasses-default",
+                          (f"reads `{ast.unparse(raw[0])}` directly" if raw else
+                           "does not read the value through get_value() / get_subvalue()")
+                          + ": an omitted value is not replaced by the specification's "
+                          "PHYSICAL-DEFAULT-VALUE", m.loc)
         rets = [r for r in walk_no_nested(m.node) if isinstance(r, ast.Return) and r.value is not
                 None and not (isinstance(r.value, ast.Constant))]
         conv_ok = False
